@@ -45,6 +45,9 @@ func GenImport(r *simrt.Rand, faultsOK bool) *ImportProg {
 		p.Path = append(p.Path, "lib1")
 	}
 	nm := 1 + r.Intn(5+3*(Scale-1))
+	if r.Chance(1, 12) {
+		nm = 6 + r.Intn(20) // larger graphs: 6-25 modules (module tables beyond their initial sizes)
+	}
 	id := 0
 	next := func() int { id++; return id }
 	names := []string{}
@@ -249,9 +252,19 @@ func (p *ImportProg) renderMod(m ImportMod) string {
 
 func (p *ImportProg) RenderMain() string {
 	var b strings.Builder
-	b.WriteString("from simlog import log, exc_name, libdir, fs_add\n")
+	b.WriteString("from simlog import log, exc_name, libdir, fs_add\n_held = {}\n")
 	for _, s := range p.Main {
 		renderImportStmt(&b, s, "main")
+	}
+	// a module object obtained early is THE module object: whatever was
+	// imported in between, importing it again yields the very same object
+	seen := map[string]bool{}
+	for _, m := range p.Mods {
+		if seen[m.Name] {
+			continue
+		}
+		seen[m.Name] = true
+		fmt.Fprintf(&b, "if \"%s\" in _held:\n    import %s as _t\n    log(\"main\", 0, \"held\", \"%s\", _held[\"%s\"] is _t)\n", m.Name, m.Name, m.Name, m.Name)
 	}
 	return b.String()
 }
@@ -328,7 +341,11 @@ func renderImportStmt(b *strings.Builder, s ImportStmt, me string) {
 			fmt.Fprintf(b, "_t.extra = \"e%d\"\n", s.V)
 		}
 	case "read":
-		fmt.Fprintf(b, "try:\n    import %s as _t\n    log(%s, \"read\", \"%s\", _t.val, _t.x)\nexcept (ImportError, AttributeError) as _e:\n    log(%s, \"read\", \"%s\", exc_name(_e))\n", s.M, tag, s.M, tag, s.M)
+		hold := ""
+		if me == "main" {
+			hold = fmt.Sprintf("    if \"%s\" not in _held:\n        _held[\"%s\"] = _t\n", s.M, s.M)
+		}
+		fmt.Fprintf(b, "try:\n    import %s as _t\n%s    log(%s, \"read\", \"%s\", _t.val, _t.x)\nexcept (ImportError, AttributeError) as _e:\n    log(%s, \"read\", \"%s\", exc_name(_e))\n", s.M, hold, tag, s.M, tag, s.M)
 	case "raise":
 		fmt.Fprintf(b, "log(%s, \"raising\")\nraise ValueError(\"boom\")\n", tag)
 	case "impbad":
